@@ -15,7 +15,8 @@ SIM_NOTE = ("Trusted: z3; the zsym proxy layer (engine/zsym.py: ints as z3 Int, 
 
 def sim_claim(what, ref):
     return ("Bounded symbolic model checking of the real simulate() code path: each obligation is one cube (structure fixed, numbers symbolic) whose path tree is explored to "
-            "exhaustion with the oracle true on every path - z3's verdict for every value of the symbolic inputs in the stated ranges. " + what, SIM_NOTE, ref)
+            "exhaustion with the oracle true on every path - z3's verdict for every value of the symbolic inputs in the stated ranges; the cubes also vary the call history "
+            "(run after a cut, backward or complete run on an edited model, continued in memory or through a file) where the property's quantifier asks for it. " + what, SIM_NOTE, ref)
 
 
 CLAIMS = {
